@@ -3349,6 +3349,10 @@ class GZipContentEncoding(OutputTransform):
                 self._compressible_type(ctype)
                 and (not finishing or len(chunk) >= self.MIN_LENGTH)
                 and ("Content-Encoding" not in headers)
+                # These responses have no body to encode; a gzip header
+                # would be written as one.
+                and status_code not in (204, 304)
+                and not (100 <= status_code < 200)
             )
         if self._gzipping:
             headers["Content-Encoding"] = "gzip"
